@@ -280,16 +280,26 @@ func (x *wrun) opTamper(i int, f []string) string {
 		x.failIn("", i, "verification of a tampered proof panicked")
 		return out
 	}
-	if strings.HasPrefix(out, "ok") && bytes.Equal(h, s.root) {
+	if b >= 1 && strings.HasPrefix(out, "ok") && bytes.Equal(h, s.root) { // (block 0 is outside the domain 1..total: any answer)
 		x.tags["tamper-accepted:"+class] = true
 		owner, inRange := s.content.owner(b)
 		if !inRange || !bytes.Equal(v, s.content[owner].val) {
+			// the matchers are the findings' fingerprints, not the tamper classes: a block in range, and
+			//   forged child weights: the value returned is the one of the proof's OWN leaf (the re-weighted path leads there
+			//                         although the block belongs to a neighbour);
+			//   node-kind confusion:  the value returned is the crafted blob (the hash pre-image of the replaced node; its weight
+			//                         field is attacker-chosen key bytes, so the block need not be in the trie's range).
+			// Any other value — and, for re-weighting, an out-of-range block — is a failure of its own.
 			cover := ""
 			switch class {
 			case "reweight", "addempty", "shortw":
-				cover = findC10W
+				if leaf, ok := s.content.owner(s.block); ok && inRange && bytes.Equal(v, s.content[leaf].val) {
+					cover = findC10W
+				}
 			case "kind":
-				cover = findC10K
+				if last := ns[len(ns)-1]; last.Value != nil && bytes.Equal(v, last.Value.Value) {
+					cover = findC10K
+				}
 			}
 			want := "no owner (block out of range)"
 			if inRange {
@@ -442,6 +452,15 @@ func genC10(r *rand.Rand, tier string, idx int) []string {
 	ops = append(ops, fmt.Sprintf("proof %d 0", b0))
 	b1 := 1 + r.Intn(total)
 	ops = append(ops, fmt.Sprintf("proof %d 1", b1))
+	// the HONEST proofs verified for other blocks (class `none`, outside every finding): the neighbours of their own block,
+	// block 0, the last block and the first beyond the total — must be rejected or yield that block's real owner
+	for slot, own := range []int{b0, b1} {
+		for _, b := range []int{own - 1, own + 1, own + 2, 0, 1, total, total + 1} {
+			if b >= 0 {
+				ops = append(ops, fmt.Sprintf("tamper %d %d none", slot, b))
+			}
+		}
+	}
 	nt := 6 + r.Intn(10)
 	for k := 0; k < nt; k++ {
 		slot := r.Intn(2)
@@ -494,7 +513,7 @@ func genC10(r *rand.Rand, tier string, idx int) []string {
 func init() {
 	register(&Suite{
 		Name:        "c10",
-		Rule:        "tries of 1..9 keys (every 150th case: comb-shaped tries of 62..65 keys in which one key has a sibling at every nibble depth 0..60/61/62/63 — the longest proof paths, up to 65 elements; 32-byte keys with shared prefixes of every length, weights 1..4 determined by the value; in memory, committed at collapse levels -1..5, reloaded); honest proofs of every block, then structured tampering of two kept proofs (re-weighting with constant sum, empty-hash child, sibling swap, substitution from other positions/proofs, an element of the other proof (its leaf) appended after the proof, drop/duplicate/truncate, bit flips in every field, node-kind substitution); non-trivial = at least 2 mutations and one verified honest proof",
+		Rule:        "tries of 1..9 keys (every 150th case: comb-shaped tries of 62..65 keys in which one key has a sibling at every nibble depth 0..60/61/62/63 — the longest proof paths, up to 65 elements; 32-byte keys with shared prefixes of every length, weights 1..4 determined by the value; in memory, committed at collapse levels -1..5, reloaded); honest proofs of every block, the kept honest proofs verified for the neighbouring blocks / block 0 / the last block / the first beyond the total, then structured tampering of two kept proofs (re-weighting with constant sum, empty-hash child, sibling swap, substitution from other positions/proofs, an element of the other proof (its leaf) appended after the proof, drop/duplicate/truncate, bit flips in every field, node-kind substitution); non-trivial = at least 2 mutations and one verified honest proof",
 		Gen:         genC10,
 		Run:         runWmpt,
 		CaseTimeout: 3 * time.Minute, // a stalled machine must not look like a hang; a real hang still fails the case
